@@ -1116,3 +1116,23 @@ package ro
 //@ operator ContextWithDeadline
 //@   props C04 C09
 //@   on next(ctx, value) : emits Next(ctx_WithDeadline(ctx, deadline), value)
+
+//@ func Timer$1
+//@   note the subscribe function of Timer: one timer of the configured duration; the value (the duration) is delivered only after the timer fired
+//@   props C16 C04
+//@   binds ctx destination duration
+//@   track destination.* chselect chpoll call.NewTimer call.Timer.Stop
+//@   ensures [arms-one-timer-of-the-duration-and-waits-for-it|C16] called(call.NewTimer) && arg(call.NewTimer, 0) == duration && count(call.NewTimer) == 1 && count(chselect) == 1 && count(chpoll) == 0 && before(call.NewTimer, chselect)
+//@   ensures [emits-the-duration-only-after-the-wait|C16,C04] called(destination.NextWithContext) ==> before(chselect, destination.NextWithContext) && arg(destination.NextWithContext, 0) == ctx && arg(destination.NextWithContext, 1) == duration && before(destination.NextWithContext, destination.CompleteWithContext)
+//@   ensures [at-most-one-value|C04] count(destination.NextWithContext) <= 1
+
+//@ func IntervalWithInitial$1$1
+//@   note the ticking goroutine of IntervalWithInitial: every value follows a tick of the initial timer or of the ticker; at most one value per tick; completes when told to stop
+//@   props C16 C09
+//@   binds destination ctx
+//@   track destination.* loop.* chselect chpoll chrecv.ANY
+//@   ensures [completes-when-told-to-stop|C16] trace(loop.L0, chselect, destination.CompleteWithContext(ctx))
+
+//@ loop IntervalWithInitial$1$1#0
+//@   iteration ensures count(chselect) == 1 && count(chpoll) == 0 && count(chrecv.ANY) == 0 && count(destination.NextWithContext) <= 1 && before(chselect, destination.NextWithContext)
+//@   iteration ensures called(destination.NextWithContext) ==> arg(destination.NextWithContext, 0) == ctx && arg(destination.NextWithContext, 1) == value - 1
